@@ -9,6 +9,7 @@ import (
 	"fmt"
 	"sort"
 	"sync"
+	"sync/atomic"
 	"testing"
 	"time"
 
@@ -517,6 +518,124 @@ func checkIsolation(c IsoCase) (string, string) {
 	return "", ""
 }
 
+// ------------------------------------------------------------------ stale handles: a transaction ended twice while another is open
+
+// StaleCase: T1 ends (abort / commit / aborting handler); T2 begins and is half-way through its Sets; T1's stale handle is
+// used again (Sets, then a second Commit or Abort); T3 tries to begin. "Calls made after Abort have no effect" and "however a
+// transaction ends the store remains usable" include: ending T1 a second time must not release the lock T2 holds.
+type StaleCase struct {
+	FirstEnd  string `json:"first_end"`  // abort, commit, handler-abort
+	SecondEnd string `json:"second_end"` // commit, abort
+	StaleSets int    `json:"stale_sets"`
+	SettleUS  int    `json:"settle_us"`
+}
+
+func checkStale(c StaleCase) (string, string) {
+	st := mem.NewStoreForVerif()
+	val := func(r keyvalue.OpResult) string {
+		if r.Err != nil || r.Record == nil {
+			return "ERR"
+		}
+		b, err := r.Record.Data()
+		if err != nil {
+			return "ERR"
+		}
+		return string(b.Bytes())
+	}
+	rw := keyvalue.TransactionOptions{Mode: keyvalue.TransactionReadWrite}
+	var sig, msg string
+	pan, hung := vf.GuardN(3, func() {
+		t1, err := st.Transaction(rw)
+		if err != nil {
+			sig, msg = "C18/mem stale:begin", err.Error()
+			return
+		}
+		switch c.FirstEnd {
+		case "abort":
+			t1.Set("k0", record("t1"), blob.NewBytes([]byte("t1")))
+			_ = t1.Abort()
+		case "handler-abort":
+			t1.SetHandler("k0", record("t1"), blob.NewBytes([]byte("t1")), keyvalue.OpHandlerFunc(func(t keyvalue.Transaction, _ keyvalue.OpResult) error {
+				return t.Abort()
+			}))
+			_, _ = t1.Commit(context.Background())
+		default:
+			t1.Set("k0", record("t1"), blob.NewBytes([]byte("t1")))
+			_, _ = t1.Commit(context.Background())
+		}
+		t2, err := st.Transaction(rw)
+		if err != nil {
+			sig, msg = "C18/mem stale:begin2", err.Error()
+			return
+		}
+		t2.Set("k1", record("t2"), blob.NewBytes([]byte("t2")))
+		// the stale handle of the finished T1 is used again
+		for i := 0; i < c.StaleSets; i++ {
+			t1.Set("k1", record("stale"), blob.NewBytes([]byte("stale")))
+		}
+		if c.SecondEnd == "abort" {
+			_ = t1.Abort()
+		} else {
+			_, _ = t1.Commit(context.Background())
+		}
+		var acquired int32
+		type seen struct{ k1, k2 string }
+		got := make(chan seen, 1)
+		go func() {
+			t3, err := st.Transaction(rw)
+			if err != nil {
+				got <- seen{"ERR", "ERR"}
+				return
+			}
+			atomic.StoreInt32(&acquired, 1)
+			t3.Get("k1")
+			t3.Get("k2")
+			res, _ := t3.Commit(context.Background())
+			if len(res) != 2 {
+				got <- seen{"?", "?"}
+				return
+			}
+			got <- seen{val(res[0]), val(res[1])}
+		}()
+		time.Sleep(time.Duration(c.SettleUS) * time.Microsecond)
+		early := atomic.LoadInt32(&acquired) == 1
+		t2.Set("k2", record("t2"), blob.NewBytes([]byte("t2")))
+		_, _ = t2.Commit(context.Background())
+		r := <-got
+		if early {
+			sig, msg = "C18/mem stale:lock-released-by-ended-transaction", fmt.Sprintf("T1 ended (%s), T2 began and was half-way, T1's stale handle was ended again (%s): a third transaction could begin while T2 was still open (it saw k1=%q k2=%q)", c.FirstEnd, c.SecondEnd, r.k1, r.k2)
+			return
+		}
+		if r.k1 != "t2" || r.k2 != "t2" {
+			sig, msg = "C18/mem stale:effects", fmt.Sprintf("after T2 committed k1=k2=t2 a new transaction reads k1=%q k2=%q (stale handle of the ended T1: %d Sets, then %s)", r.k1, r.k2, c.StaleSets, c.SecondEnd)
+		}
+	})
+	if hung {
+		return "C18/mem stale:hang", fmt.Sprintf("%+v did not finish", c)
+	}
+	if pan != "" {
+		return "C18/mem stale:panic", pan
+	}
+	return sig, msg
+}
+
+func TestStale(t *testing.T) {
+	vf.Check(t, "stale", func(rt *rapid.T, rec *vf.Rec) {
+		c := StaleCase{
+			FirstEnd:  rapid.SampledFrom([]string{"abort", "commit", "handler-abort"}).Draw(rt, "first"),
+			SecondEnd: rapid.SampledFrom([]string{"commit", "abort"}).Draw(rt, "second"),
+			StaleSets: rapid.IntRange(0, 2).Draw(rt, "stalesets"),
+			SettleUS:  rapid.IntRange(200, 3000).Draw(rt, "settle"),
+		}
+		rec.Step(c)
+		rec.NonTrivial()
+		rec.Class("first:" + c.FirstEnd + ",second:" + c.SecondEnd)
+		if sig, msg := checkStale(c); sig != "" {
+			rec.Failf(rt, sig, "%s", msg)
+		}
+	})
+}
+
 func TestIsolation(t *testing.T) {
 	vf.Check(t, "isolation", func(rt *rapid.T, rec *vf.Rec) {
 		c := IsoCase{Writers: rapid.IntRange(1, 3).Draw(rt, "writers"), Readers: rapid.IntRange(1, 3).Draw(rt, "readers"), Settle: rapid.IntRange(0, 300).Draw(rt, "settle"), ReadOnly: rapid.Bool().Draw(rt, "readonly")}
@@ -555,6 +674,22 @@ func TestReplayAll(t *testing.T) {
 				}
 				for rep := 0; rep < 50; rep++ {
 					if sig, msg := checkIsolation(c); sig != "" {
+						return sig, msg
+					}
+				}
+			}
+			return "", ""
+		})
+	})
+	t.Run("stale", func(t *testing.T) {
+		vf.Replay(t, "stale", func(steps []json.RawMessage) (string, string) {
+			for _, raw := range steps {
+				var c StaleCase
+				if err := json.Unmarshal(raw, &c); err != nil {
+					return "bad-replay", err.Error()
+				}
+				for rep := 0; rep < 20; rep++ {
+					if sig, msg := checkStale(c); sig != "" {
 						return sig, msg
 					}
 				}
